@@ -3,6 +3,8 @@
 From Coq Require Import ZArith List Bool Permutation.
 Import ListNotations.
 From Verif Require Import Base.StableSort Base.PyValue Proofs.PyValueProofs Model.Order Proofs.OrderProofs.
+(* imported before the C03_source_* theorems; required here so that coqdep sees the dependency on the generated file *)
+From Verif Require Model.PyMini Model.PrimsExec Gen.SrcExec Proofs.SrcExec.
 Open Scope Z_scope.
 
 (* The executor's multi-pass sort (one list.sort per maximal run of equal
@@ -103,7 +105,7 @@ Print Assumptions C03_exec_pipeline.
    execute_select selected by structure).  Interpreting those terms equals, for ALL inputs, the Model/Order.v
    functions the theorems above are about.  Library calls have the semantics of Model/PrimsExec.v (trusted). *)
 From Coq Require Import String.
-From Verif Require Import Model.PyMini Model.PrimsExec Gen.SrcExec Proofs.SrcExec.
+Import Verif.Model.PyMini Verif.Model.PrimsExec Verif.Gen.SrcExec Verif.Proofs.SrcExec.
 
 (* uniquify: the translated generator function yields Order.uniquify of the rows *)
 Theorem C03_source_uniquify : forall (call_ref : nat -> list pv -> pv) (prim : string -> list pv -> res pv),
